@@ -255,7 +255,7 @@ def _p_values(gamma, B_cdfs, rr_inv, T_lens, iq, nq, offset, results):
 	n = len(T_lens) // 2
 	total_offset = uint64(0)
 
-	max_nt = gamma.shape[0]
+	max_nt = max(T_lens)
 	t_sums = numpy.empty(max_nt+nq-1, dtype='int16')
 
 	for i, nt in enumerate(T_lens):
